@@ -3,6 +3,7 @@ package sbom
 import (
 	"fmt"
 	"maps"
+	"sort"
 )
 
 // flatString returns a deterministic serialized representation of the external reference as a string.
@@ -20,6 +21,16 @@ func (e *ExternalReference) flatString() string {
 
 	if e.Authority != "" {
 		ret += fmt.Sprintf("(a)%s", e.Authority)
+	}
+
+	// Hashes, in a deterministic order
+	algos := make([]int, 0, len(e.Hashes))
+	for algo := range e.Hashes {
+		algos = append(algos, int(algo))
+	}
+	sort.Ints(algos)
+	for _, algo := range algos {
+		ret += fmt.Sprintf("(h)%d:%s", algo, e.Hashes[int32(algo)])
 	}
 
 	return ret
